@@ -1,7 +1,7 @@
 (* Exec2.v — executable instances of Ops.v / Spec2.v on cells = list Q and the second half of
    the operation interpreter run by the correspondence check. *)
 From Coq Require Import QArith Qround.
-From HS Require Import Prelude Cov Map Spec Ops Spec2 Exec.
+From HS Require Import Prelude Cov Map Spec Ops Spec2 Exec Packed.
 Open Scope Z_scope.
 
 (* ---------- element arithmetic on Q ---------- *)
@@ -285,5 +285,26 @@ Definition step2 (w : world) (op : list (list Z)) : world * result :=
     else step w op
   end.
 
+(* stateless evaluation of the bit-packed array model (Packed.v):
+   [40];[ds de si st];[has_a a];[has_b b]  -> slice view or raised
+   [41];[ds de si st]                       -> first/middle/last descriptor
+   [42];[x]                                 -> population-count table entry *)
+Definition view_of (g : list Z) : pview := mkview (znth 0 g 0) (znth 0 g 1) (znth 0 g 2) (znth 0 g 3).
+Definition packed_monitor (op : list (list Z)) : result :=
+  let code := gz op 0 0 in
+  if code =? 40 then
+    let a := if gz op 2 0 =? 1 then Some (gz op 2 1) else None in
+    let b := if gz op 3 0 =? 1 then Some (gz op 3 1) else None in
+    match slice_view (view_of (grp op 1)) a b with
+    | Some v => [ok1; [vds v; vde v; vsi v; vst v]]
+    | None => raised
+    end
+  else if code =? 41 then
+    let d := extract_fml (view_of (grp op 1)) in
+    [ok1; [f_lo d; f_hi d; m_lo d; m_hi d; l_lo d; l_hi d]]
+  else [ok1; [lut_entry (gz op 1 0)]].
+
 Definition step_top2 (w : world) (op : list (list Z)) : world * result :=
-  if gz op 0 0 =? 9 then (w, layout_monitor op) else step2 w op.
+  if gz op 0 0 =? 9 then (w, layout_monitor op)
+  else if 40 <=? gz op 0 0 then (w, packed_monitor op)
+  else step2 w op.
